@@ -1,5 +1,5 @@
 // C10 puppet: counts handler invocations per signal, loops through a breakpoint site.
-// usage: sigpuppet <threads 1|2> <iterations> <spin>
+// usage: sigpuppet <threads 1|2> <iterations> <spin> [free]   (gated by C10_GO unless `free`)
 // build: rustc +1.89 --edition 2021 -g sigpuppet.rs
 use std::hint::black_box;
 use std::sync::atomic::{AtomicU64, Ordering::SeqCst};
@@ -11,6 +11,9 @@ pub static C10_ITER: [AtomicU64; 2] = [AtomicU64::new(0), AtomicU64::new(0)];
 /// set by the harness through /proc/pid/mem: the main loop ends after the current iteration
 #[no_mangle]
 pub static C10_DONE: AtomicU64 = AtomicU64::new(0);
+/// gate of the main loop: iteration i starts when C10_GO > i (the harness adds credits through /proc/pid/mem)
+#[no_mangle]
+pub static C10_GO: AtomicU64 = AtomicU64::new(0);
 static WORKER_DONE: AtomicU64 = AtomicU64::new(0);
 
 const SIGINT: i32 = 2;
@@ -81,6 +84,9 @@ fn main() {
         let rc = unsafe { sigaction(s, &act, std::ptr::null_mut()) };
         assert_eq!(rc, 0);
     }
+    if args.get(4).map(|s| s == "free").unwrap_or(false) {
+        C10_GO.store(u64::MAX, SeqCst);
+    }
     let h = if threads >= 2 { Some(std::thread::spawn(move || worker(n))) } else { None };
     if h.is_some() {
         while C10_ITER[1].load(SeqCst) == 0 {
@@ -90,6 +96,9 @@ fn main() {
     let mut acc = 0u64;
     let mut i = 0u64;
     while i < iters && C10_DONE.load(SeqCst) == 0 {
+        while C10_GO.load(SeqCst) <= i && C10_DONE.load(SeqCst) == 0 {
+            spin(2000);
+        }
         spin(n);
         acc += site(i);
         C10_ITER[0].fetch_add(1, SeqCst);
